@@ -88,9 +88,9 @@ def run_config(chk, config):
 
 def run(chk):
     run_config(chk, "default")
+    run_config(chk, "debug")
     if chk.tier == "thorough":
-        for cfg in ("debug", "release"):
-            run_config(chk, cfg)
+        run_config(chk, "release")
     return chk.finish(
         "proof",
         explanation="AVP::reveal analysed for every hidden value length/content, attribute type, secret and random vector; "
